@@ -301,7 +301,9 @@ func families() []family {
 		}, readAll},
 		{"F3-escape-at-every-nesting-level-array", func(n int) [][]byte { return one(rep(`["\n",`, n) + "1" + rep("]", n)) }, readFresh},
 		{"F3b-escape-at-every-nesting-level-object", func(n int) [][]byte { return one(rep(`{"k\n":"v\t","n":`, n) + "1" + rep("}", n)) }, readFresh},
-		{"unicode-escapes-in-one-long-string", func(n int) [][]byte { return one(`["` + rep(`\u00e9`, n*4) + `",{"` + rep(`\u00fc`, n) + `":"` + rep(`\ud83d\ude00`, n) + `"}]`) }, readFresh},
+		{"unicode-escapes-in-one-long-string", func(n int) [][]byte {
+			return one(`["` + rep(`\u00e9`, n*4) + `",{"` + rep(`\u00fc`, n) + `":"` + rep(`\ud83d\ude00`, n) + `"}]`)
+		}, readFresh},
 		{"unicode-escapes-ReadStringBytes", func(n int) [][]byte { return one(`"` + rep(`\u00e9`, n*8) + `"`) }, func(docs [][]byte) {
 			for _, d := range docs {
 				rjson.ReadStringBytes(d, nil)
@@ -348,6 +350,32 @@ func families() []family {
 				} else {
 					rd.ReadValue(d)
 				}
+			}
+		}},
+		{"reused-reader-array-of-big-objects-then-small-objects-via-ReadValue", func(n int) [][]byte {
+			docs := [][]byte{[]byte("[" + keysObj(n*2) + "," + keysObj(n*2) + "]")}
+			for i := 0; i < n; i++ {
+				docs = append(docs, []byte(`{"a":1}`))
+			}
+			return docs
+		}, func(docs [][]byte) {
+			var rd rjson.ValueReader
+			rd.ReadArray(docs[0])
+			for _, d := range docs[1:] {
+				rd.ReadValue(d)
+			}
+		}},
+		{"reused-reader-object-of-big-arrays-then-small-arrays-via-ReadValue", func(n int) [][]byte {
+			docs := [][]byte{[]byte(`{"a":[` + rep("0,", n*4) + `0],"b":[` + rep("0,", n*4) + "0]}")}
+			for i := 0; i < n; i++ {
+				docs = append(docs, []byte(`[1]`))
+			}
+			return docs
+		}, func(docs [][]byte) {
+			var rd rjson.ValueReader
+			rd.ReadObject(docs[0])
+			for _, d := range docs[1:] {
+				rd.ReadValue(d)
 			}
 		}},
 		{"wide-array-of-numbers", func(n int) [][]byte { return one("[" + rep("1.5,", n*4) + "2]") }, readFresh},
